@@ -153,7 +153,7 @@ def search(ctx, n_theta, n_pts):
     return found
 
 
-def run(ctx):
+def _run(ctx):
     quick = ctx.tier == 'quick'
     status = biv.generate(ctx)
     needed = ['bivariate_percent_point'] + [f'{f}_percent_point' for f in FAMS] + [f'{f}_partial_derivative' for f in FAMS]
@@ -176,3 +176,16 @@ def run(ctx):
     ctx.extra['witness_search_hits'] = search(ctx, 4 if quick else 30, 60 if quick else 600)
     ctx.trusted.append('scipy.optimize.brentq is an oracle: theorems assume it returns an exact root inside a valid bracket (real tolerance xtol=2e-12)')
     ctx.assumptions.append('Frank/Gumbel inverse theorems are conditional on the lower bracket end being valid: h(EPSILON,v) <= y')
+
+
+def run(ctx):
+    """the check proper, then the history / memory-layout oracles on the real classes (always, also after a broken translation)"""
+    from .. import extra_oracles
+    try:
+        _run(ctx)
+    finally:
+        try:
+            extra_oracles.biv_extra(ctx, 'C08')
+        except Exception as ex:       # the oracle itself must never hide the result of the check proper
+            ctx.obligation('oracle:extra:raised', False, 'correspondence', repr(ex))
+            ctx.violation('oracle:extra:raised:' + type(ex).__name__, 'history/layout oracle raised ' + repr(ex), {'repro': '# see tools/vf/extra_oracles.py'})
